@@ -16,15 +16,32 @@ NOVERIFY_WRITERS = {
 }
 
 
+DOCUMENTED_STATUS = [0x00, 0x0101, 0x0102, 0x0103, 0x0104, 0x0105, 0x0106, 0x0107, 0x0200, 0x0201, 0x0202, 0x0300, 0x0301]
+
+
 def status_table(prog, chk, rule, name):
-    """R6: the status conversion maps only 'absent' and 0 to KSI_OK."""
+    """R6: the status conversion maps only 'absent' and 0 to KSI_OK - for the documented codes, for every case label the source
+    mentions, and for values that differ from them only above bit 16 / bit 32 (a narrowing conversion on the way must not matter)."""
     fn = prog.fn(name, "net.c")
     pn = fn.params[0]["n"]
-    cases = sorted({e.label[1] for b in fn.blocks for e in fn.succ[b] if isinstance(e.label, tuple) and e.label[0] == "case"})
-    if len(cases) < 5:
-        raise AnalysisBroken("%s: switch over the status code not found" % name)
-    inl = inline_model(prog, {"KSI_Integer_getUInt64"})
-    for v in ["absent"] + cases + [0x7777]:
+    # helpers of the same unit the conversion is delegated to are evaluated from their own CFG
+    helpers, work = set(), [fn]
+    while work:
+        f = work.pop()
+        for b, i, n in f.calls():
+            nm = n.get("fn")
+            if nm and nm not in helpers and nm != name:
+                for g in prog.functions.get(nm, []):
+                    if g.unit == fn.unit and nm != "KSI_Integer_getUInt64":
+                        helpers.add(nm)
+                        work.append(g)
+    cases = set(DOCUMENTED_STATUS)
+    for f in [fn] + [g for h in helpers for g in prog.functions.get(h, [])]:
+        cases |= {e.label[1] for b in f.blocks for e in f.succ[b] if isinstance(e.label, tuple) and e.label[0] == "case"}
+    cases = sorted(cases)
+    wide = [0x7777, 0x10000, 0x10101, 1 << 32, (1 << 32) + 0x0101, 3 << 40, 1 << 63, (1 << 64) - 1]
+    inl = inline_model(prog, {"KSI_Integer_getUInt64"} | helpers)
+    for v in ["absent"] + cases + wide:
         inputs = {pn: 0} if v == "absent" else {pn: Ptr("S"), "S->value": v}
         I = Interp(fn, inputs=inputs, call_model=inl, on_unknown="stop", prog=prog)
         paths = I.run()
@@ -36,7 +53,7 @@ def status_table(prog, chk, rule, name):
         chk.ob(rule, "%s[%s]" % (name, v if isinstance(v, str) else hex(v)), (r == 0) == want_ok and isinstance(r, int),
                "service status %s must map to %s; source returns %s" % (v if isinstance(v, str) else hex(v), "KSI_OK" if want_ok else "an error",
                                                                       hex(r) if isinstance(r, int) else r), loc=fn.loc(), fn=fn,
-               nontrivial=(v in ("absent", 0, 0x7777, cases[1])))
+               nontrivial=(v in ("absent", 0, 0x7777, 0x0101, 1 << 32)))
 
 
 def run(prog, chk):
